@@ -76,6 +76,11 @@ type Item struct {
 	Files    []string          // generated files, relative to OutDir
 	Types    map[string]GoType // IDL struct-like name (as passed to WriteStructBegin) -> Go type
 	BuildErr string
+	// WantVars: package-level constants / variables (by Go name) the driver
+	// should expose; Vars is filled by Discover with those that are declared.
+	WantVars []string
+	Vars     map[string]GoType
+	Ctors    map[string]bool // IDL struct-like names for which New<GoName>() exists
 }
 
 type GoType struct {
@@ -86,11 +91,13 @@ type GoType struct {
 
 // Batch is a scratch module with many items.
 type Batch struct {
-	Scratch     string
-	Mod         string // module dir
-	Thriftgo    string
-	Items       []*Item
-	ExtraDriver map[string]string // file name -> source (replaces extra_none.go)
+	Scratch      string
+	Mod          string // module dir
+	Thriftgo     string
+	Items        []*Item
+	ExtraDriver  map[string]string // file name -> source (a name starting with "extra_" replaces extra_none.go)
+	WithServices bool              // generate recording handlers + client/processor factories
+	Services     []*GoService
 }
 
 func NewBatch(scratch, thriftgo string) (*Batch, error) {
@@ -204,9 +211,23 @@ var structBeginRe = regexp.MustCompile(`WriteStructBegin\("([^"]*)"\)`)
 func (b *Batch) Discover() {
 	for _, it := range b.Items {
 		it.Types = map[string]GoType{}
+		it.Vars = map[string]GoType{}
+		it.Ctors = map[string]bool{}
 		if it.Exit != 0 {
 			continue
 		}
+		want := map[string]bool{}
+		for _, n := range it.WantVars {
+			want[n] = true
+		}
+		funcs := map[string]bool{}
+		defer func(it *Item) {
+			for n, gt := range it.Types {
+				if funcs[gt.Pkg+".New"+gt.Name] {
+					it.Ctors[n] = true
+				}
+			}
+		}(it)
 		fset := token.NewFileSet()
 		for _, rel := range it.Files {
 			if !strings.HasSuffix(rel, ".go") {
@@ -219,6 +240,19 @@ func (b *Batch) Discover() {
 			}
 			pkg := "vscratch/gen/" + it.Key + "/" + filepath.ToSlash(filepath.Dir(rel))
 			for _, d := range f.Decls {
+				if gd, ok := d.(*ast.GenDecl); ok && (gd.Tok == token.CONST || gd.Tok == token.VAR) {
+					for _, sp := range gd.Specs {
+						for _, n := range sp.(*ast.ValueSpec).Names {
+							if want[n.Name] {
+								it.Vars[n.Name] = GoType{Pkg: pkg, Name: n.Name, File: rel}
+							}
+						}
+					}
+					continue
+				}
+				if fd, ok := d.(*ast.FuncDecl); ok && fd.Recv == nil && strings.HasPrefix(fd.Name.Name, "New") {
+					funcs[pkg+"."+fd.Name.Name] = true
+				}
 				fd, ok := d.(*ast.FuncDecl)
 				if !ok || fd.Recv == nil || fd.Name.Name != "Write" || fd.Body == nil || len(fd.Recv.List) != 1 {
 					continue
@@ -266,8 +300,16 @@ func (b *Batch) WriteDriver() error {
 	for _, e := range ents {
 		src, _ := driverFS.ReadFile("driversrc/" + e.Name())
 		name := strings.TrimSuffix(e.Name(), ".txt")
-		if name == "extra_none.go" && len(b.ExtraDriver) > 0 {
-			continue
+		if name == "extra_none.go" {
+			replaced := false
+			for n := range b.ExtraDriver {
+				if strings.HasPrefix(n, "extra_") {
+					replaced = true
+				}
+			}
+			if replaced {
+				continue
+			}
 		}
 		if err := os.WriteFile(filepath.Join(dir, name), src, 0o644); err != nil {
 			return err
@@ -275,6 +317,12 @@ func (b *Batch) WriteDriver() error {
 	}
 	for n, s := range b.ExtraDriver {
 		if err := os.WriteFile(filepath.Join(dir, n), []byte(s), 0o644); err != nil {
+			return err
+		}
+	}
+	if b.WithServices {
+		b.Services = b.DiscoverServices()
+		if err := os.WriteFile(filepath.Join(dir, "svcglue.go"), []byte(b.ServiceGlue(b.Services)), 0o644); err != nil {
 			return err
 		}
 	}
@@ -287,6 +335,12 @@ func (b *Batch) WriteDriver() error {
 			continue
 		}
 		for _, gt := range it.Types {
+			if _, ok := alias[gt.Pkg]; !ok {
+				alias[gt.Pkg] = fmt.Sprintf("p%d", len(alias))
+				pkgs = append(pkgs, gt.Pkg)
+			}
+		}
+		for _, gt := range it.Vars {
 			if _, ok := alias[gt.Pkg]; !ok {
 				alias[gt.Pkg] = fmt.Sprintf("p%d", len(alias))
 				pkgs = append(pkgs, gt.Pkg)
@@ -310,6 +364,18 @@ func (b *Batch) WriteDriver() error {
 		for _, n := range names {
 			gt := it.Types[n]
 			fmt.Fprintf(&sb, "\tregistry[%q] = func() any { return new(%s.%s) }\n", RegKey(it, n), alias[gt.Pkg], gt.Name)
+			if it.Ctors[n] {
+				fmt.Fprintf(&sb, "\tctors[%q] = func() any { return %s.New%s() }\n", RegKey(it, n), alias[gt.Pkg], gt.Name)
+			}
+		}
+		vnames := make([]string, 0, len(it.Vars))
+		for n := range it.Vars {
+			vnames = append(vnames, n)
+		}
+		sort.Strings(vnames)
+		for _, n := range vnames {
+			gt := it.Vars[n]
+			fmt.Fprintf(&sb, "\tvars[%q] = func() any { return %s.%s }\n", RegKey(it, n), alias[gt.Pkg], gt.Name)
 		}
 	}
 	sb.WriteString("}\n")
